@@ -1959,6 +1959,9 @@ func (tc *typechecker) checkCompositeLiteral(node *ast.CompositeLiteral, typ ref
 
 	// Handle composite literal nodes with implicit type.
 	if node.Type == nil {
+		if typ == nil {
+			panic(tc.errorf(node, "missing type in composite literal"))
+		}
 		node.Type = ast.NewPlaceholder()
 		tc.compilation.typeInfos[node.Type] = &typeInfo{Properties: propertyIsType, Type: typ}
 	}
